@@ -10,6 +10,7 @@ import RegexVerif.Lemmas.Spec
 import RegexVerif.Lemmas.Backtrack
 import RegexVerif.Lemmas.Writer
 import RegexVerif.Lemmas.CompileTop
+import RegexVerif.Lemmas.Reduce
 
 namespace RegexVerif.Props.C01
 open RegexVerif RegexVerif.Spec
@@ -527,5 +528,179 @@ example : InFrag 3 ccTP (ccInfo 2) (.capture 0 (-1) (.concat [.capture 1 (-1) (.
     InFrag 4 ccTP (ccInfo 1) (.capture 0 (-1) (.concat [.bare opUpdateBumpalong, .char opOne false false 97])) = false := by decide
 
 end compiler
+/-! ################################################################################################
+## pipeline — `compilePattern = emit ∘ reduceTree ∘ parse` (Model/Reduce.lean, leg Pl)
+
+The reducer is ONE executable function from the parser's raw tree to the tree the writer reads; leg Pl
+compares it (and the compiled program) with the Go compiler exactly, on every explored pattern.  Proved
+here: the reducer never leaves the writer's domain, hence the compiler never fails after a successful parse;
+the semantic laws of the reductions this slice adds to `RewriteDecisions`; and decided witnesses that the
+nested-repeater multiplication of `reduceRep` is NOT meaning-preserving under the guards the Go code has.
+################################################################################################ -/
+section pipeline
+open RegexVerif.Reduce RegexVerif.Writer
+
+/-- **(i, proved part) The reduced tree of a well-formed raw tree is accepted by the writer.**  For every
+    oracle, with and without the gated rewrites: if the raw tree has only known node types with the child
+    counts the parser produces (`okRawTree`, decidable: `okN` except that a Concatenate / Alternate below the root may be
+    childless, as in `(?:)`; leg Pl evaluates it on every parsed pattern), then the writer's stricter shape `okN` holds for
+    the tree after every `reduce()` and `finalOptimize` — no reduction (the reused alternation / concatenation /
+    atomic functions included: `fromR_ok` holds for EVERY `RNode`) produces a childless Concatenate / Alternate, a
+    Loop / Capture / lookaround / Atomic without its child, a conditional with the wrong number of branches or
+    an unknown node type.  This is the component `root.ok` of `Writer.treeWf`.
+
+    Full statement (NOT proved): `Parser.wfTree t → Writer.treeWf (treeInfo rtl t) (reduceTree orc on t)`.
+    Missing: `capsOk` (the reused functions never invent a Capture / Ref / BackRefCond: needs an "every wrapped
+    node of the result is a wrapped node of the argument" lemma for each function of RewriteDecisions), `boundsOk`
+    (`0 ≤ M ≤ N ≤ MaxInt32` through `reduceRep`'s clamped multiplication and the coalescing sums), and
+    `Parser.wfTree t → okRawTree (ofRaw t.root)`.  Leg Pl evaluates `treeWf` on every reduced tree (`Pl:wf`). -/
+theorem reduceTree_wf_partial (orc : Orc) (on : Bool) (t : Parser.RawTree) (h : okRawTree (ofRaw t.root) = true) :
+    (reduceTree orc on t).ok = true :=
+  reduceTree_ok orc on t h
+
+/-- `reduce()` and `eliminateEndingBacktracking` one call at a time (what `reduceTree_wf_partial` iterates) -/
+theorem reduce_keeps_shape (orc : Orc) (on : Bool) (fuel : Nat) (pa : Bool) (x : Node) (h : okN x = true) :
+    okN (reduce orc on fuel pa x) = true ∧ okN (elim orc on fuel pa x) = true :=
+  ⟨(reduce_elim_ok orc on fuel).1 pa x h, (reduce_elim_ok orc on fuel).2 pa x h⟩
+
+/-- an oracle for the examples: nothing overlaps, every character is a word character -/
+def plOrc : Orc := { charIn := fun _ _ => false, overlap := fun _ _ => false, isWord := fun _ => true, isEcmaWord := fun _ => true }
+
+private def rawNode (t : Parser.NT) (m n : Int) (kids : List Parser.RNode) : Parser.RNode := .mk t {} 0 [] none m n kids
+private def rawOne (c : Nat) : Parser.RNode := .mk .one {} c [] none 0 0 []
+private def rawGroupOf (t : Parser.NT) (m n : Int) (body : List Parser.RNode) : Parser.RNode :=
+  rawNode t m n [rawNode .alternate 0 0 [rawNode .concatenate 0 0 body]]
+
+/-- the raw tree of `(?:(?:a)+b|(?:a)+c)*d` (what `VerifParseRaw` returns) -/
+def plDemoRaw : Parser.RawTree :=
+  { root := rawGroupOf .capture 0 (-1)
+      [rawNode .loop 0 2147483647 [rawNode .group 0 0 [rawNode .alternate 0 0
+        [rawNode .concatenate 0 0 [rawNode .loop 1 2147483647 [rawGroupOf .group 0 0 [rawOne 97]], rawOne 98],
+         rawNode .concatenate 0 0 [rawNode .loop 1 2147483647 [rawGroupOf .group 0 0 [rawOne 97]], rawOne 99]]]],
+       rawOne 100],
+    tables := { caps := [0], capnumlist := none, captop := 1, capnames := none, caplist := none } }
+
+/-- non-vacuity: the hypothesis holds on a raw tree with groups, nested loops and an alternation … -/
+example : okRawTree (ofRaw plDemoRaw.root) = true := by decide
+/-- `(?:){3}`: the empty Concatenate of the raw tree is allowed and repaired -/
+example : okRawTree (ofRaw (rawGroupOf .capture 0 (-1) [rawNode .loop 3 3 [rawGroupOf .group 0 0 []]])) = true
+    ∧ okN (ofRaw (rawGroupOf .capture 0 (-1) [rawNode .loop 3 3 [rawGroupOf .group 0 0 []]])) = false := by decide
+/-- … and the conclusion, evaluated -/
+example : (reduceTree plOrc true plDemoRaw).ok = true ∧ (reduceTree plOrc false plDemoRaw).ok = true := by decide
+
+/-- **(iii, proved part) The compiler is total after the parser.**  If the parser returns a (well-shaped) tree,
+    `compileStages` returns the program of `Writer.write` on `reduceTree` of that tree — never a writer error —
+    for every oracle and either setting of the rewrite switch; `compilePattern` is `emit` of it.
+
+    Full statement (NOT proved): for every `E`, `compilePattern orc E = .ok p ∧ wfProg p` or
+    `compilePattern orc E = .error (.parse c)`.  Missing: `parse_total` (no fault / fuel outcome: proved for the
+    scanner layer only, `Props.C10.scanners_total_partial`; leg Pr observes none) and `treeWf` of the reduced
+    tree (`reduceTree_wf_partial` gives its first component), from which `Props.C01.emit_wf` gives `wfProg`. -/
+theorem compilePattern_total_partial (orc : Orc) (E : Parser.Env) (t : Parser.RawTree)
+    (hp : Parser.parse E = .ok t) (hw : okRawTree (ofRaw t.root) = true) :
+    (∃ c, compileStages orc true E = .ok c ∧ c.tree = reduceTree orc true t ∧
+        c.written.prog = emit (treeInfo E.opts.r t) (reduceTree orc true t)) ∧
+    compilePattern orc E = .ok (emit (treeInfo E.opts.r t) (reduceTree orc true t)) := by
+  have hok := reduceTree_ok orc true t hw
+  have hcs : compileStages orc true E = .ok
+      { raw := t, tree := reduceTree orc true t, info := treeInfo E.opts.r t,
+        written := { prog := emit (treeInfo E.opts.r t) (reduceTree orc true t),
+                     sets := (codeFromTree (mainCfg (treeInfo E.opts.r t)) (reduceTree orc true t)).2.sets,
+                     slotInUse := slotsInUse (treeInfo E.opts.r t) (reduceTree orc true t),
+                     quick := quickCodes (treeInfo E.opts.r t) (reduceTree orc true t) } } := by
+    simp only [compileStages, hp, write, hok, if_true]
+  refine ⟨⟨_, hcs, rfl, rfl⟩, ?_⟩
+  simp only [compilePattern, hcs]
+  rfl
+
+/-- when moreover `treeWf` holds for the reduced tree (leg Pl: on every explored pattern), the compiled program
+    is well-formed: everything the pipeline produces is in the domain of `emit_wf`, `emit_trackcount`, … -/
+theorem compilePattern_wf (orc : Orc) (E : Parser.Env) (t : Parser.RawTree)
+    (hw : treeWf (treeInfo E.opts.r t) (reduceTree orc true t) = true) :
+    wfProg (emit (treeInfo E.opts.r t) (reduceTree orc true t)) = true :=
+  emit_wf _ _ hw
+
+example : treeWf (treeInfo false plDemoRaw) (reduceTree plOrc true plDemoRaw) = true := by decide
+
+/-! ### (ii) the meaning of the added reductions
+
+`reduceTree_sound` — `Spec.find (denotation (reduceRoot x)) = Spec.find (denotation x)` — is NOT proved, not
+even on the part `RewriteDecisions` proves: its soundness theorems (`reduceAlt_sound`, `reduceAtomic_sound`, …)
+ask the callback `red` to be sound on EVERY `RNode` (`RedSound`), and this file's `red` (= `toR ∘ reduce ∘ fromR`)
+is denotation-faithful only on the image of `toR` (a wrapped node whose tag contradicts its payload is not);
+besides, the compiler runs the duplicate-collapsing variant (`ll = true`), for which `Spec.m` is not preserved as
+a list (`Props.C05.merge_overlapping_duplicates`).  The tie of the reducer to the meaning stays with legs R / Rw /
+T.  Proved below: the laws of the reductions this slice adds, and the status of the one that has no law. -/
+
+/-- `reduceLookaround`: a positive lookaround around Empty is Empty -/
+theorem look_empty (e : Env) (behind rtl : Bool) (st : St) :
+    m e (.look behind false .empty) rtl st = m e .empty rtl st := by
+  simp [m]
+
+/-- `reduceLookaround`: a negative lookaround around Empty — `(?!)` — is Nothing -/
+theorem neglook_empty (e : Env) (behind rtl : Bool) (st : St) :
+    m e (.look behind true .empty) rtl st = m e .nothing rtl st := by
+  simp [m]
+
+/-- `reduceExpressionConditional`: a positive lookahead used as the condition is the condition (left to
+    right: the Go code tests `condition.Options & RightToLeft == 0`) -/
+theorem exprCond_lookahead (e : Env) (c y n : Pat) (st : St) :
+    m e (.exprCond (.look false false c) y n) false st = m e (.exprCond c y n) false st := by
+  simp only [m]
+  cases m e c false st <;> rfl
+
+/-- `reduceRep`: repeating Empty is Empty — as the FIRST success (the list has the state twice when the
+    minimum is 0: once from the empty iteration, once from stopping); `{0,0}` of anything is Empty -/
+theorem quant_zero_zero' (e : Env) (lzy rtl : Bool) (p : Pat) (st : St) : m e (.quant lzy 0 (some 0) p) rtl st = [st] := by
+  simp [m, iter, canGo]
+
+def plEnv (t : List Nat) : Env := { text := t, textstart := 0, named := [], word := [97, 98, 99], fold := [] }
+def plSt0 : St := { pos := 0, caps := [] }
+private def pa' : Pat := .chr (.one 97 false)
+
+/-- `(?:){3}`, `(?:)*`, `(?:)+?` -/
+example : m (plEnv [97]) (.quant false 3 (some 3) .empty) false plSt0 = [plSt0]
+    ∧ (m (plEnv [97]) (.quant false 0 none .empty) false plSt0).head? = some plSt0
+    ∧ m (plEnv [97]) (.quant true 1 none .empty) false plSt0 = [plSt0] := by decide
+
+/-- `reduceRep`, a single-character child: `(?:a){2,3}` is the Oneloop `a{2,3}` by definition of the denotation
+    (`RewriteDecisions.cloopPat`) -/
+theorem rep_of_char (lzy : Bool) (p : RewriteDecisions.CP) (lo : Nat) (hi : Option Nat) (o : Nat) (rtl : Bool) :
+    RewriteDecisions.toPat rtl (.loop lzy lo hi (.chr o p)) =
+      RewriteDecisions.toPat rtl (.cloop o (if lzy then .lzy else .greedy) p lo hi) := by
+  cases lzy <;> rfl
+
+/-- **The nested-repeater multiplication of `reduceRep` has no law under the guards of the Go code.**
+    `(?:a{2,4}){1,2}` passes both guards (`u.M == 0 && child.M > 1` is false, `child.N < 2·child.M` is false)
+    and is compiled as `a{2,8}`; on "aaaaa" the written pattern matches 4 letters (the first iteration takes
+    four, the second cannot take two, one iteration is enough), the compiled one 5. -/
+theorem rep_multiplication_changes_match :
+    find (plEnv [97, 97, 97, 97, 97]) (.quant false 1 (some 2) (.quant false 2 (some 4) pa')) false 0 = some ⟨4, [(0, 0, 4)]⟩
+    ∧ find (plEnv [97, 97, 97, 97, 97]) (.quant false 2 (some 8) pa') false 0 = some ⟨5, [(0, 0, 5)]⟩ := by decide
+
+/-- … and the reducer does exactly that (`reduceRep`: the Loop disappears into its child) -/
+example : let r := reduceRep 8 (.mk 26 0 0 [] none 1 2 [.mk 3 0 97 [] none 2 4 []])
+    (r.t, r.ch, r.m, r.n, r.kids.length) = (3, 97, 2, 8, 0) := by decide
+
+/-- **It can create a match.**  `(?:(?>a+)){2}`: the atomic loop takes every `a` and gives nothing back, the
+    second iteration finds none — no match on "aa"; compiled as `(?>a{2,})` it matches (DESIGN §1.3, "observed"). -/
+theorem rep_multiplication_creates_match :
+    find (plEnv [97, 97]) (.quant false 2 (some 2) (.atomic (.quant false 1 none pa'))) false 0 = none
+    ∧ find (plEnv [97, 97]) (.atomic (.quant false 2 none pa')) false 0 = some ⟨2, [(0, 0, 2)]⟩ := by decide
+
+example : let r := reduceRep 8 (.mk 26 0 0 [] none 2 2 [.mk 43 0 97 [] none 1 2147483647 []])
+    (r.t, r.ch, r.m, r.n, r.kids.length) = (43, 97, 2, 2147483647, 0) := by decide
+
+/-- **Where it IS harmless** (decided instance of the side condition stated in design.d/C01-pipeline.md: same
+    greediness, inner loop not atomic, inner minimum ≤ 1, hence no gap between `k` and `k+1` iterations and the
+    greedy decomposition reaches the maximum): `(?:a{1,2}){1,2}` and `a{1,4}` have the same first success from
+    every start, and the same successes up to later duplicates — the lists differ. -/
+theorem rep_multiplication_harmless_instance :
+    (∀ start, start ≤ 4 → find (plEnv [97, 97, 97, 98]) (.quant false 1 (some 2) (.quant false 1 (some 2) pa')) false start
+        = find (plEnv [97, 97, 97, 98]) (.quant false 1 (some 4) pa') false start)
+    ∧ (m (plEnv [97, 97, 97]) (.quant false 1 (some 2) (.quant false 1 (some 2) pa')) false plSt0).map (·.pos) = [3, 2, 3, 2, 1]
+    ∧ (m (plEnv [97, 97, 97]) (.quant false 1 (some 4) pa') false plSt0).map (·.pos) = [3, 2, 1] := by decide
+
+end pipeline
 
 end RegexVerif.Props.C01
